@@ -16,7 +16,7 @@ func init() {
 			"R18.1 ordinal order: shards are appended in a loop over 0..n-1, each taken from a name→pod table (filled from every listed pod under its own name) by the key '<set>-<index>' rendered from the StatefulSet's name and the loop index; id, address and readiness come from that entry; " +
 			"R18.2 deletion range: every claim Delete sits in a loop whose index starts at old−1 (old = the replica count read before it is overwritten), steps by −1 and continues while index ≥ the requested count; the claim name is '<template>-<set>-<index>' from those three sources; " +
 			"R18.3 guards: Delete only under deletePVC ∧ the Update succeeded; Update only when the replica count of the StatefulSet just read from the API server (Get) is set and differs from the request, and no successful return precedes that read; the value stored is the request; " +
-			"R18.4 rolling update: a manager is appended only under Status.Replicas == Status.UpdatedReplicas. " +
+			"R18.4 rolling update: a manager is appended only under Status.Replicas == Status.UpdatedReplicas; R18.5 the StatefulSet a manager keeps is an object of its own iteration (not the address of a variable shared by all iterations under the language version of go.mod). " +
 			"Not decided: the behaviour of the Kubernetes API server / fake clientset.",
 		Assumptions: []string{"go/types and go/ssa are correct", "StatefulSet pod naming <set>-<ordinal> and claim naming <template>-<set>-<ordinal> (Kubernetes convention)"}})
 }
@@ -71,6 +71,7 @@ func runC18(p *engine.Prog, r *engine.Report) {
 	r.Min("R18.2-deletion-range", 1)
 	r.Min("R18.3-guards", 2)
 	r.Min("R18.4-rolling-update", 1)
+	r.Min("R18.5-own-object", 1)
 	var k8sFuncs []*ssa.Function
 	for _, fn := range p.Funcs {
 		if engine.InPkg(fn, pkgK8s) {
@@ -403,8 +404,36 @@ func runC18(p *engine.Prog, r *engine.Report) {
 				}
 			}
 			r.Check(okg, "R18.4-rolling-update", fmt.Sprintf("manager append#%d in %s", n, engine.FuncName(fn)), "append at "+p.Rel(call.Pos()), "only StatefulSets with Status.Replicas == Status.UpdatedReplicas are coordinated", strings.Join(nonStructural(fi.Guards(call.Block())), " ∧ "))
+			// R18.5: the StatefulSet object a manager keeps is its own: a copy made in the iteration (or the list element),
+			// not the address of a variable that the next iteration overwrites
+			var probs5 []string
+			lp := loopOf(fi, call.Block())
+			for _, e := range varargElems(call.Call.Args[1]) {
+				mk, ok := unwrapIface(e).(*ssa.Call)
+				if !ok {
+					continue
+				}
+				for _, a := range mk.Call.Args {
+					if !strings.HasSuffix(a.Type().String(), "*k8s.io/api/apps/v1.StatefulSet") {
+						continue
+					}
+					switch x := a.(type) {
+					case *ssa.Alloc:
+						if lp != nil && !lp.blocks[x.Block().Index] {
+							probs5 = append(probs5, "the manager is given the address of "+x.Comment+", a variable declared outside the loop body (with the loop semantics of go.mod's language version every manager ends up with the last StatefulSet)")
+						}
+					case *ssa.IndexAddr:
+					default:
+						if al, _ := rootAllocOf(a).(*ssa.Alloc); al != nil && lp != nil && !lp.blocks[al.Block().Index] {
+							probs5 = append(probs5, "the manager is given a pointer into "+al.Comment+", declared outside the loop body")
+						}
+					}
+				}
+			}
+			r.Check(len(probs5) == 0, "R18.5-own-object", fmt.Sprintf("manager object#%d in %s", n, engine.FuncName(fn)), "constructor call appended at "+p.Rel(call.Pos()), "each manager keeps a StatefulSet object of its own iteration", strings.Join(probs5, "; "))
 		}
 	}
 }
 
 func controlsC18(p *engine.Prog) []Control { return nil }
+
